@@ -487,6 +487,12 @@ func genPackageOpt(r *vh.Rand, awkward, decorate bool) *gPackage {
 	defItem := false
 	badList := false
 	switch pickClash {
+	case 4: // topic / message names that are not fixed points of strcase.ToCamel (seeded C16-F), pinned
+		p.Topics = append(p.Topics,
+			gTopic{Name: "level2cache", Kind: "publish", Unnamed: true},
+			gTopic{Name: "Mixed_feed", Kind: "publish", Messages: []string{"Level3flush", "HTTPDone"}},
+			gTopic{Name: "snake_topic", Kind: "event", Messages: []string{"Unused"}},
+			gTopic{Name: "Ack2me", Kind: "reqres", Messages: []string{"Do2it"}})
 	case 3: // a list method whose response has two arrays / no array: rejected by the compiler since /repo cec4e3a
 		badList = true
 		p.Clash = "badlist"
@@ -567,7 +573,7 @@ func genPackageOpt(r *vh.Rand, awkward, decorate bool) *gPackage {
 			}
 		}
 	}
-	if r.Chance(30) {
+	if len(p.Topics) == 0 && r.Chance(30) {
 		noun := vh.Pick(r, nouns)
 		tp := gTopic{Name: nameVariant(r, noun+"Feed", false), Kind: vh.Pick(r, []string{"publish", "publish", "upsert", "event", "reqres"}),
 			Messages: []string{nameVariant(r, "Do"+noun, true), "Undo" + noun}[:r.Range(1, 2)]}
